@@ -147,7 +147,7 @@ impl Engine for MultiEngine {
         let conc = MultiConcrete { a, b, calls: out.calls.clone(), xproc: case.xproc < 6 };
         let (failure, ran) = Self::check(&conc);
         let has = |f: &dyn Fn(&Call) -> bool| conc.calls.iter().any(|c| f(c));
-        let interesting = has(&|c| matches!(c, Call::Merge { .. } | Call::Slice(_) | Call::NextId | Call::NextIdAdd));
+        let interesting = has(&|c| matches!(c, Call::Merge { .. } | Call::Slice(_) | Call::SliceSome(..) | Call::NextId | Call::NextIdAdd));
         let nontrivial = ran && interesting && out.max_labels >= 2 && a != b;
         let mut h = std::collections::hash_map::DefaultHasher::new();
         (a, b, &conc.calls).hash(&mut h);
@@ -166,6 +166,9 @@ impl Engine for MultiEngine {
         }
         if has(&|c| matches!(c, Call::Slice(_))) {
             events.push("slice");
+        }
+        if has(&|c| matches!(c, Call::SliceSome(..))) {
+            events.push("slice_some");
         }
         if has(&|c| matches!(c, Call::NextId | Call::NextIdAdd)) {
             events.push("next_id");
